@@ -45,17 +45,32 @@ from vlib import Undecided, read_ndjson, write_ndjson, edge_cover, parse_action 
 from tlagen import gen_mc  # noqa: E402
 
 INVARIANTS = ["TypeOK", "AttributionAtIssuer", "SkipMovesExactlyN", "FormatIndependent", "KindIndependent",
-              "InlineIndependent", "ViaIndependent", "SiteIndependent", "WithinChain"]
+              "InlineIndependent", "ViaIndependent", "SiteIndependent", "CallerSurvivesUserAttr", "WithinChain"]
 
 # named deviation of the specification -> known-finding key
-DEV_KEYS = {"BridgeIgnoresSkip": "ep:stdlog:skip-ignored"}
+DEV_KEYS = {"BridgeIgnoresSkip": "ep:stdlog:skip-ignored", "CallerBeforeAttrs": "attr:caller:overrides-call-site"}
 
-CELL_FIELDS = ["ep", "fam", "fmt", "kind", "inl", "via", "skip", "other", "depth", "site"]
+CELL_FIELDS = ["ep", "fam", "fmt", "kind", "inl", "via", "skip", "other", "depth", "site", "ua"]
+UA_TEXT = {"rec": "the record", "log": "the logger", "hdl": "the log/slog handler"}
 
 # entry points that also have call sites behind //line directives (= LineEPNames of spec/Caller.tla)
 LINE_EPS = ["Info", "Println", "InfoContext", "LogAttrs", "Log", "Infof", "slog.Warn", "slog.InfoContext",
             "logslog.Info", "logslog.LogAttrs", "stdlog.Print", "stdlog.Output"]
 LINE_DEPTH = 2
+
+# entry points that have cells with a user attribute keyed `caller` (= UAEPNames of spec/Caller.tla); the ones with a
+# call in UA_CALLS take attributes themselves and have a third issuing function c14sA_* that passes c14KV / c14SLKV /
+# c14SLAttrs (set per cell), the others (printf, std-log bridge) get the attribute through the logger only
+UA_EPS = ["Info", "InfoContext", "LogAttrs", "Infof", "slog.Warn", "logslog.Info", "logslog.LogAttrs", "stdlog.Print"]
+UA_CALLS = {
+    "Info": 'c14L.Info("m", c14KV...)',
+    "InfoContext": 'c14L.InfoContext(c14Ctx, "m", c14KV...)',
+    "LogAttrs": 'c14L.LogAttrs(c14Ctx, slog.InfoLevel, "m", c14KV...)',
+    "slog.Warn": 'slog.Warn("m", c14KV...)',
+    "logslog.Info": 'c14SL.Info("m", c14SLKV...)',
+    "logslog.LogAttrs": 'c14SL.LogAttrs(c14Ctx, logslog.LevelInfo, "m", c14SLAttrs...)',
+}
+UA_DEV = "CallerBeforeAttrs"
 
 
 def tiers(ctx):
@@ -112,10 +127,13 @@ def cell_key(c):
 
 
 def describe(c):
-    return "%s [%s, %s logger, %s wrappers, skip %d via %s%s, %d wrapper(s)%s]" % (
+    ua = c.get("ua", "none")
+    return "%s [%s, %s logger, %s wrappers, skip %d via %s%s, %d wrapper(s)%s%s]" % (
         c["ep"], c["fmt"], c["kind"], "inlinable" if c["inl"] else "noinline", c["skip"], c["via"],
         " (previous/parent skip %d)" % c["other"] if c["via"] in ("SetSet", "WithOver") else "", c["depth"],
-        "" if c.get("site", "go") == "go" else ", frames behind //line directives: chain %s" % c["site"])
+        "" if c.get("site", "go") == "go" else ", frames behind //line directives: chain %s" % c["site"],
+        "" if ua == "none" else ", %s carries %s keyed `caller`" % (
+            UA_TEXT[ua.split("-")[0]], "a group {file, line, function}" if ua.endswith("group") else "a plain attribute"))
 
 
 def execute(ctx, consts, cells, tag):
@@ -152,7 +170,8 @@ def execute(ctx, consts, cells, tag):
         want = b["want"]
         got = d["got"]
         gotdesc = {"user": "user frame %d (%s)" % (got["i"], d.get("gotfunc")), "lib": "frame %s outside the wrapper chain" % d.get("gotfunc"),
-                   "none": "no frame of the call stack", "missing": "nothing (record has no caller member)"}.get(got["k"], got["k"])
+                   "none": "no frame of the call stack", "missing": "nothing (record has no caller member)",
+                   "attr": "the program's own attribute (the last member of that name in the record)"}.get(got["k"], got["k"])
         what = "%s: record names %s as caller %s; specification: user frame %d = %s. %s" % (
             describe(c), gotdesc, json.dumps(d.get("caller")), want["i"],
             (d["user"][want["i"]]["func"] + ":" + str(d["user"][want["i"]]["line"])) if want["i"] < len(d.get("user") or []) else "?",
@@ -165,7 +184,11 @@ def execute(ctx, consts, cells, tag):
         ep = by_id[b["id"]]["ep"] if b["id"] >= 0 else "?"
         site = by_id[b["id"]].get("site", "go") if b["id"] >= 0 else "go"
         d = det.get(b["id"], {})
-        if site != "go":
+        ua = by_id[b["id"]].get("ua", "none") if b["id"] >= 0 else "none"
+        if ua != "none":
+            # the record / logger / handler carries an attribute keyed `caller`: named after where it sits, its shape, the format
+            report("attr:caller:%s:%s" % (ua, by_id[b["id"]]["fmt"]), b, "(%d cells of this entry point diverge)" % v["badn"].get(ep, 0))
+        elif site != "go":
             # a call site behind a //line directive: named after the class of its file name and the format
             report("site:%s:%s" % (site.split("/")[0], by_id[b["id"]]["fmt"]), b,
                    "(file name of the frames: %s; %d cells of this entry point diverge)" % (d.get("sitefile"), v["badn"].get(ep, 0)))
@@ -634,7 +657,7 @@ def run(ctx, replay):
             ctx.sample(dict(history=beh["steps"][:8]))
             return ctx.finish(rule="replay of one recorded history", exhaustive=False)
         consts = rp.get("consts", consts)
-        cells = [dict(dict(site="go"), **dict(c, id=i)) for i, c in enumerate(rp["cells"])]
+        cells = [dict(dict(site="go", ua="none"), **dict(c, id=i)) for i, c in enumerate(rp["cells"])]
         consts = dict(consts, LineSites=sorted(set(consts.get("LineSites", [])) | {c["site"] for c in cells if c["site"] != "go"}))
         rows, details, v = execute(ctx, consts, cells, "replay")
         ctx.traces += 1
@@ -660,6 +683,8 @@ def run(ctx, replay):
             wrong[0]["id"], wrong[0]["runtime"]))
     if sorted(cap.get("line_eps") or []) != sorted(LINE_EPS) or cap.get("line_depth") != LINE_DEPTH:
         raise Undecided("entry points / depth of the //line chains of the worker differ from LINE_EPS / LINE_DEPTH")
+    if sorted(cap.get("ua_eps") or []) != sorted(UA_EPS) or sorted(cap.get("ua_rec_eps") or []) != sorted(UA_CALLS):
+        raise Undecided("entry points with user-attribute cells of the worker differ from UA_EPS / UA_CALLS (python3 checks/c14.py gen-sites)")
     consts["LineSites"] = pick_line_sites(ctx, cap)
 
     # ---- 1a. non-vacuity + export: a short run over the bridge family with the named deviation
@@ -678,6 +703,9 @@ def run(ctx, replay):
         raise Undecided("table export did not run:\n" + w.out[-2000:])
     if sorted(lineeps[0]) != sorted(LINE_EPS):
         raise Undecided("LineEPNames of the specification and LINE_EPS of the worker generator differ")
+    uaeps = w.prints("uaeps")
+    if len(uaeps) != 1 or sorted(uaeps[0]) != sorted(UA_EPS):
+        raise Undecided("UAEPNames of the specification and UA_EPS of the worker generator differ")
     if sorted(eps[0]) != sorted(cap["eps"]):
         raise Undecided("entry points of the specification and of the worker differ: %s" % sorted(set(eps[0]) ^ set(cap["eps"])))
     table = read_ndjson(cell_file)
@@ -692,6 +720,13 @@ def run(ctx, replay):
 
     def model_check():
         try:
+            # non-vacuity of the user-attribute cells: with the built-in member written in FRONT of the attributes a
+            # last-wins reader sees the program's attribute - the invariants must fail
+            w2 = ctx.tlc("MC", "MC.cfg", files=mc_files(consts, [UA_DEV], init="InitUA"), name="caller-witness-ua", workers=2,
+                         allow_fail=True)
+            if not ({"AttributionAtIssuer", "CallerSurvivesUserAttr"} & set(w2.invariant_violated)):
+                raise Undecided("witness run: no attribution invariant failed with %s enabled:\n%s" % (UA_DEV, w2.out[-2000:]))
+            ctx.extra["witness_ua"] = "%s violated with Devs={%s} (expected)" % (",".join(sorted(w2.invariant_violated)), UA_DEV)
             mc["r"] = ctx.model_check("MC", "MC.cfg", files=mc_files(consts, []), name="caller-mc", workers=8)
         except BaseException as ex:       # re-raised in the main thread
             mc["ex"] = ex
@@ -724,7 +759,9 @@ def run(ctx, replay):
     return ctx.finish(rule="(a) every cell of the TLC-enumerated table (entry point x 3 formats x logger kind x inlinable/noinline "
                            "wrappers x way the skip is given x skip x depth>=skip; plus, for 12 entry points (one per calling "
                            "convention), chains whose frames sit behind //line directives: every file-name class the toolchain "
-                           "accepts x 3 formats x skip 0..2 x depth skip..2) is issued on the library and the recorded "
+                           "accepts x 3 formats x skip 0..2 x depth skip..2; plus, for 8 entry points, cells in which the record, "
+                           "the logger or the log/slog handler carries an attribute keyed `caller` - plain or group - x 3 formats x "
+                           "skip 0..2 x depth skip..2: a last-wins reader must still get the call site) is issued on the library and the recorded "
                            "attribution validated by TLC; non-trivial = distinct cells with skip>0 or at least one wrapper; "
                            "(b) every edge of the TLC-explored machine of logger configuration (WithSkip/SetSkip on any live "
                            "logger, package-level forms, New/With... children, SetDefault, other configuration) plus seeded "
@@ -745,7 +782,16 @@ def run_cells(ctx, consts, table, eps):
     ctx.evaluations += len(cells)
     # non-trivial = distinct cells in which the attributed frame is not simply the innermost user
     # frame of a depth-0 chain: something had to be skipped exactly (skip > 0) or wrappers exist
-    ctx.nontrivial += len(set(cell_key(c) for c in cells if c["skip"] > 0 or c["depth"] > 0 or c["site"] != "go"))
+    ctx.nontrivial += len(set(cell_key(c) for c in cells if c["skip"] > 0 or c["depth"] > 0 or c["site"] != "go" or c["ua"] != "none"))
+    ua_cells = [(c, d) for c, d in zip(cells, details) if c["ua"] != "none"]
+    ua_seen = sum(1 for c, d in ua_cells if d.get("uaseen"))
+    ctx.extra["user_attr_cells"] = dict(cells=len(ua_cells), attribute_found_in_the_record=ua_seen,
+                                        entry_points=sorted(set(c["ep"] for c, _ in ua_cells)),
+                                        placements=sorted(set(c["ua"] for c, _ in ua_cells)),
+                                        colliding=sum(1 for c, d in ua_cells if d.get("uaseen") and (
+                                            c["fmt"] == "json" or (c["fmt"] == "logfmt" and c["ua"].endswith("group")))))
+    if ua_cells and ua_seen * 2 < len(ua_cells):
+        raise Undecided("the attribute keyed `caller` shows up in %d of %d records that should carry it" % (ua_seen, len(ua_cells)))
     line_cells = [c for c in cells if c["site"] != "go"]
     ctx.extra["line_site_cells"] = dict(cells=len(line_cells), chains=len(set(c["site"] for c in line_cells)),
                                         file_name_classes=sorted(set(c["site"].split("/")[0] for c in line_cells)),
@@ -767,6 +813,9 @@ def run_cells(ctx, consts, table, eps):
         "ESC, DEL, non-ASCII, U+2028, astral code points, markup, '=' - all the Go toolchain accepts; it refuses invalid UTF-8, NUL "
         "and U+FEFF) the decoded file must be EXACTLY slog.Safety(file the runtime reports for the frame), line and function exact; "
         "in the coloured line, which has no quoting, the frames of the real stack are the candidates (file:line func at the end of the line)",
+        "cells with a user attribute keyed `caller`: the decoders take the LAST member of a name (encoding/json; the logfmt tokenizer: later keys "
+        "win); the log/slog handler and the std-log bridge do not print the attributes the LOGGER carries (Entry.WriteThru), those cells are "
+        "executed and judged but the attribute is not in the record (coverage.user_attr_cells.attribute_found_in_the_record)",
         "std-log bridge cells use logger level Info / bridge severity Info so that a record is emitted whichever way the admission comparison is written (C15)",
         "Verbose/VerboseContext (build tag verbose) are out of scope"]
 
@@ -817,7 +866,8 @@ def gen_sites():
            "// of inlinable wrappers (c14sI_X <- c14w1I_X <- .. <- c14w%dI_X) and once //go:noinline (c14sN_X," % INL_DEPTH,
            "// wrapped by the shared //go:noinline chain c14wN1.. of fam_caller.go).  Each inlinable function is",
            "// one statement so that the compiler's inlining budget admits the whole chain; the noinline ones",
-           "// have a second statement on the next line.",
+           "// have a second statement on the next line.  c14sA_X (entry points of UA_CALLS): a //go:noinline site whose",
+           "// call passes attributes of its own (c14KV / c14SLKV / c14SLAttrs: an attribute keyed `caller`).",
            "",
            "import (",
            '\tlogslog "log/slog"',
@@ -844,7 +894,17 @@ def gen_sites():
         out.append("\tc14After++ // a following statement on its own line: a return address taken as the call's line shows")
         out.append("}")
         out.append("")
-        reg.append('\t"%s": {inl: [c14InlDepth + 1]func(){%s}, no: c14sN_%s},' % (name, ", ".join(chain), ident))
+        at = ""
+        if name in UA_CALLS:
+            # third issuing function: the call carries attributes of its own (cells with ua = rec-*)
+            out.append("//go:noinline")
+            out.append("func c14sA_%s() {" % ident)
+            out.append("\t" + UA_CALLS[name])
+            out.append("\tc14After++")
+            out.append("}")
+            out.append("")
+            at = ", at: c14sA_%s" % ident
+        reg.append('\t"%s": {inl: [c14InlDepth + 1]func(){%s}, no: c14sN_%s%s},' % (name, ", ".join(chain), ident, at))
     reg.append("}")
     path = os.path.join(os.path.dirname(HERE), "harness", "fam_caller_sites.go")
     with open(path, "w") as fh:
